@@ -94,6 +94,7 @@ type SpecDB struct {
 	Axioms    []*Axiom
 	KeySpaces []*KeySpace
 	Confined  []string // write-confined unexported fields (confined.go)
+	CallSites []*CallSiteRule
 	Files     []string
 }
 
@@ -115,7 +116,7 @@ var labelRe = regexp.MustCompile(`^([a-zA-Z][a-zA-Z0-9_\-]*):\s+(.*)$`)
 
 var keywords = map[string]bool{"channel": true, "func": true, "interface": true, "props": true, "requires": true, "ensures": true,
 	"modifies": true, "nopanic": true, "inline": true, "pure": true, "loop": true, "closure": true, "invariant": true,
-	"ghost": true, "allocates": true, "like": true, "sets": true, "axiom": true, "note": true, "reads": true, "abstract": true, "end": true, "access": true, "keyspace": true, "confined": true, "unreachable": true, "assumes": true}
+	"ghost": true, "allocates": true, "like": true, "sets": true, "axiom": true, "note": true, "reads": true, "abstract": true, "end": true, "access": true, "keyspace": true, "confined": true, "callsites": true, "unreachable": true, "assumes": true}
 
 // parseSpecFile reads //@ lines (or bare lines in .spec files) into the db.
 // pkgShort qualifies unqualified function keys.
@@ -329,6 +330,20 @@ func (db *SpecDB) parseSpecFile(path string, src []byte, pkgShort string, truste
 			default:
 				return fmt.Errorf("%s: ghost var|func", loc)
 			}
+		case "callsites":
+			// callsites <Cxx> <method or function name> in <package name> only <func key> | <func key> ...
+			fs := strings.Fields(rest)
+			i := strings.Index(rest, " only ")
+			if len(fs) < 6 || i < 0 || fs[2] != "in" || fs[4] != "only" {
+				return fmt.Errorf("%s: callsites <property> <name> in <package name> only <function key> | ...", loc)
+			}
+			r := &CallSiteRule{Prop: fs[0], Name: fs[1], Pkg: fs[3], File: loc}
+			for _, k := range strings.Split(rest[i+len(" only "):], "|") {
+				if k = strings.TrimSpace(k); k != "" {
+					r.Only = append(r.Only, k)
+				}
+			}
+			db.CallSites = append(db.CallSites, r)
 		case "confined":
 			for _, f := range strings.Split(rest, ",") {
 				if f = strings.TrimSpace(f); f != "" && !contains(db.Confined, f) {
@@ -851,4 +866,14 @@ func parseKeySpace(rest string) (*KeySpace, error) {
 		}
 	}
 	return ks, nil
+}
+
+// CallSiteRule: `callsites Cxx Name only f | g` - in the packages loaded for property Cxx every call whose callee
+// (static function, method, or invoked interface method) is called Name stands in one of the listed functions.
+type CallSiteRule struct {
+	Prop string
+	Name string
+	Pkg  string // package (by name) whose functions are scanned
+	Only []string
+	File string
 }
